@@ -41,6 +41,9 @@ func c16(tier string) []*explore.Scenario {
 		out = append(out, c17AttachDuringDial("C16", dial, bound))
 	}
 	out = append(out, c16DialBacklog(3, bound+1), c16DialBacklog(5, bound))
+	for _, pause := range []time.Duration{29 * time.Second, 31 * time.Second, 10 * time.Minute} {
+		out = append(out, c16SlowReceiver(pause, 0))
+	}
 	out = append(out, c17OpSeqs("C16", tier)...)
 	out = append(out, c17Product("C16"))
 	out = append(out, c16RPC("payloads", true, 0))
@@ -384,6 +387,56 @@ func c16DialBacklog(n, bound int) *explore.Scenario {
 			if countStr(t.Dialed, "c") != 1 {
 				vsched.Fail(fam+"|dial-count", "c was dialled %d times", countStr(t.Dialed, "c"))
 			}
+		},
+	}
+}
+
+// c16SlowReceiver: a receiver takes one envelope, then nothing for `pause`
+// (far longer than any internal timeout), with 5 more envelopes for it
+// outstanding at the proxy (well below its per-destination buffer) over a
+// rendezvous transport; then it reads on. Everything arrives, exactly once, in
+// order; nobody is reported disconnected.
+func c16SlowReceiver(pause time.Duration, bound int) *explore.Scenario {
+	fam := "C16/slow-receiver"
+	return &explore.Scenario{
+		Name: fmt.Sprintf("C16/slow-receiver/pause=%v", pause), Family: fam, Prop: "C16", Bound: bound, Horizon: time.Hour,
+		Run: func() {
+			t, peers := c17Env(0) // rendezvous transports: a write to b completes when b reads
+			vsched.Settle()
+			var got []uint64
+			readB := func(n int) {
+				for i := 0; i < n; i++ {
+					r, err := peers["b"].A.Read(context.Background())
+					if err != nil {
+						return
+					}
+					got = append(got, r.GetId())
+				}
+			}
+			vsched.GoNamed("sender-a", func() {
+				for id := uint64(300); id < 306; id++ {
+					peers["a"].A.Write(context.Background(), c17Msg(id, "a", "b"))
+				}
+			})
+			vsched.GoNamed("reader-b-1", func() { readB(1) })
+			vsched.Quiesce()
+			vsched.GoNamed("pause", func() { vsched.SleepFor("pause", pause) })
+			vsched.QuiesceTime()
+			vsched.GoNamed("reader-b-2", func() { readB(5) })
+			vsched.QuiesceTime()
+			vsched.Obs("pause=%v elapsed=%v got=%v disconnects=%v", pause, vsched.Elapsed(), got, t.Disconnects)
+			if fmt.Sprint(got) != "[300 301 302 303 304 305]" {
+				vsched.Fail(fam+"|lost", "receiver b paused for %v with 5 envelopes outstanding, then read on: it received %v, want [300..305]", pause, got)
+			}
+			if len(t.Disconnects) != 0 {
+				vsched.Fail(fam+"|healthy-peer-disconnected", "receiver b paused for %v: the proxy reported %v disconnected", pause, t.Disconnects)
+			}
+			t.Cancel()
+			for _, p := range peers {
+				p.A.Break()
+				p.B.Break()
+			}
+			vsched.QuiesceTime()
 		},
 	}
 }
